@@ -211,10 +211,13 @@ def gen_probe(rng, c, pts):
         total += rng.choice([1, -1]) * UNIT[c["form"]] * rng.choice([1, 1, 2, 3])
     # never coarser than the anchor's form: the interval's slots are exact for that form and finer ones
     form = rng.choice({"s": "s", "m": "sm", "h": "smh"}[c["form"]])
-    coarse = c["form"] == "h" or form == "h"
+    # (the second point of a start/second-point series counts too: the probe is compared with it as the end bound,
+    #  and re-zoning a decimal-hour point by minutes that are no multiple of 15 is not exact in binary64)
+    second_form = Q.form_of(c["second"]) if c.get("second") else ""
+    coarse = c["form"] == "h" or form == "h" or second_form == "h"
     tz = other_zone(rng, c["anchor"], coarse)
     p = spell(rng, m, total, tz, rng.choice("cow"), form)
-    if "h" in (c["form"], Q.form_of(p)) and (p[8] - c["anchor"][8]) % 15 != 0:
+    if "h" in (c["form"], Q.form_of(p), second_form) and (p[8] - c["anchor"][8]) % 15 != 0:
         p = spell(rng, m, total, (c["anchor"][7], c["anchor"][8]), rng.choice("cow"), form)
     return p
 
